@@ -86,7 +86,9 @@ def qb(bits, integer, symmetric=0, keep_negative=True, alpha=1):
 
 
 def weight_specs(rng, want):
-  """weight quantizer spec of the requested kind"""
+  """weight quantizer spec of the requested kind; a tuple (class name, kwargs) is an explicit spec"""
+  if isinstance(want, tuple):
+    return (want[0], dict(want[1]))
   if want == "fixed":
     return qb(int(rng.choice([2, 3, 4])), int(rng.choice([0, 0, 1])), symmetric=int(rng.integers(0, 2)))
   if want == "fixed_mostneg":
@@ -145,6 +147,8 @@ ALIAS_WKINDS = ["stochastic_ternary", "stochastic_binary", "bernoulli", "binary0
 
 
 def act_specs(rng, want):
+  if isinstance(want, tuple):               # explicit (class name, kwargs)
+    return (want[0], dict(want[1]))
   if want == "relu":
     b = int(rng.choice([2, 3, 4]))
     return ("quantized_relu", dict(bits=b, integer=int(rng.choice([0, 1, min(2, b)]))))
@@ -372,6 +376,33 @@ def gen_specs(rng, tier):
                       layers=[dict(w="relu_po2", b="relu_po2", act=None, act_mode=None, raw="top_" + top, braw="top_neg",
                                    below_top=k % 2)]))
     k += 1
+  # (c5) power-of-two ACTIVATION in front of a power-of-two KERNEL (the po2 x po2 multiplier `Adder`: exponents add, the two
+  #      max_value caps multiply, and the product has NO cap as soon as one operand has none).  All combinations
+  #      {no max_value, max_value > 1, max_value <= 1} of the activation x the kernel, both po2 classes as activation,
+  #      two different caps when both are capped, python int / float caps; the uncapped side is driven ABOVE 1 (source
+  #      lattice up to 15.75, kernels saturated at their top power of two) and below 1 (lattice steps of 1/4, random po2
+  #      kernels).  With a cap <= 1 on the activation the source stays >= 1/4 so that the activation tensor fits the
+  #      type qtools reports for it (finding C18-po2-maxvalue-le1 would otherwise hide the pre-activation clause).
+  caps = {None: [None, None], "hi": [2, 4.0], "lo": [1, 0.5]}
+  raws = ["allmax", "top_tied", "top_neg", "top_pos"]
+  k = 0
+  for a_cap in (None, "hi", "lo"):
+    for w_cap in (None, "hi", "lo"):
+      for rep in range(2):
+        a_cls = ["quantized_relu_po2", "quantized_po2"][(k + rep) % 2]
+        w_cls = ["quantized_po2", "quantized_po2", "quantized_relu_po2"][(k + off) % 3]
+        akw = dict(bits=[4, 3][(k // 2) % 2 if a_cap is None else 0])
+        wkw = dict(bits=4 if w_cap is None else [4, 3][k % 2])
+        if a_cap:
+          akw["max_value"] = caps[a_cap][rep]
+        if w_cap:
+          wkw["max_value"] = caps[w_cap][1 - rep]
+        fam = "dense" if rep == 0 else fams[(k + off) % 4]
+        specs.append(dict(stream="po2po2_caps", family=fam, pre=(a_cls, akw), n_in=[3, 2, 5][k % 3], cin=[1, 3][k % 2],
+                          src=("s", 6, 4, a_cap != "lo"), in_lo_code=1 if a_cap == "lo" else None,
+                          layers=[dict(w=(w_cls, wkw), b=biases[k % 3], act=None, act_mode=None, units=2,
+                                       raw=raws[k % 4] if (w_cap == "lo" or k % 2 == 0) else "random", below_top=0)]))
+        k += 1
   # (c4) one quantizer OBJECT serving two layers (kernel quantizer and activation), the model analysed repeatedly
   for i, wk in enumerate(["fixed", "stochastic_ternary", "po2"]):
     specs.append(dict(stream="shared_objects", family=fams[(i + off) % 4], pre=[None, "relu", "bits"][i % 3], share=True,
@@ -515,8 +546,8 @@ def build(rng, spec, idx):
   b.spec = spec
   # ---- source type and input shape
   if "src" in spec:
-    _, sb, si = spec["src"]
-    b.src_spec = qb(sb, si, symmetric=0, alpha=None)
+    sb, si = spec["src"][1], spec["src"][2]
+    b.src_spec = qb(sb, si, symmetric=0, alpha=None, keep_negative=spec["src"][3] if len(spec["src"]) > 3 else True)
   else:
     b.src_spec = qb(int(rng.choice([2, 3, 4, 6])), int(rng.choice([0, 0, 1, 2])),
                     keep_negative=bool(rng.random() < 0.8), alpha=None)
@@ -596,7 +627,7 @@ def build(rng, spec, idx):
               unused_bspec=None if has_bias else bq_spec, bkind=ls["b"],
               aspec=aspec if attr_act is not None else None,
               raw=ls.get("raw", "random"), braw=ls.get("braw", "random"), below_top=ls.get("below_top", 0),
-              wkind=ls["w"], set_w=ls.get("set_w"))
+              wkind=ls["w"] if isinstance(ls["w"], str) else ls["w"][0], set_w=ls.get("set_w"))
     b.items.append(it)
     b.nodes.append(None)      # filled after the weights are known (kernel shape, auto_po2 scales)
     if aspec is not None and attr_act is None:
@@ -629,6 +660,8 @@ def inputs_for(rng, b, first_kernel):
   anti-aligned with every output channel of the first layer's effective kernel"""
   kw = b.src_spec[1]
   lo, hi, step = lattice(kw["bits"], kw["integer"], kw["keep_negative"])
+  if b.spec.get("in_lo_code") is not None:   # keep the inputs at or above a lattice code (see stream po2po2_caps)
+    lo = int(b.spec["in_lo_code"])
   shp = b.ishape
   xs = [np.full(shp, hi * step), np.full(shp, lo * step)]
   tags = ["all-max", "all-min"]
@@ -1162,6 +1195,8 @@ def run(run: core.Run, tier: str):
     if o["bad"]:
       failed[(meta["model"], meta["route"], meta["pos"], meta["site"])] = True
   reports_of = {(idx, route): impl_reports for (idx, route, _, _, impl_reports, _) in chain_meta if impl_reports is not None}
+  config_of = {idx: {"source": key_[2], "nodes": [" / ".join(str(v) for v in k_ if v not in (None, "None", ())) for k_ in key_[3]]}
+               for (idx, _, _, key_, impl_reports, _) in chain_meta if impl_reports is not None}
   for meta, li in judge_meta:
     o, line = outs[li], judge_lines[li]
     if not o["bad"]:
@@ -1173,7 +1208,8 @@ def run(run: core.Run, tier: str):
     mi, route, pos = meta["model"], meta["route"], meta["pos"]
     keyd = {"site": site, "why": why, "route": route}
     detail = {"model": mi, "pos": pos, "stream": meta["stream"], "family": meta["family"],
-              "reported_type": line["q"], "value": str(v), "n_bad_shown": len(o["bad"])}
+              "reported_type": line["q"], "value": str(v), "n_bad_shown": len(o["bad"]),
+              "config": config_of.get(mi)}
     if site == "preactivation":
       # C18_preactivation's hypotheses: inputs, weights and bias are values of their reported types.
       # Where they are not (an upstream finding), the pre-activation failure is its consequence.
